@@ -7,6 +7,7 @@ import itertools
 
 import jax.numpy as np
 import jax.typing
+import numpy as onp
 from jax.scipy import stats
 
 
@@ -337,7 +338,9 @@ class GMMEstimator:
         self.final_state_norm = None
         self.threshold = threshold
         self.verbose = verbose
-        self.is_deterministic = True if self.data.std() < threshold else False
+        # NOTE: the spread is computed in float64 on the host. In float32 the mean of constant data of magnitude >= 1 is rounded,
+        #       which gives a non-zero std (e.g. 1e-6 for 20 x 12.34) and constant data would not be recognised as deterministic.
+        self.is_deterministic = True if float(onp.std(onp.asarray(data, dtype=onp.float64))) < threshold else False
         self._mean = np.mean(data)
         self._std = np.std(data)
         self._data_norm: np.ndarray = (data - data.mean()) / max(data.std(), 1e-7) if not self.is_deterministic else data
